@@ -6,7 +6,9 @@
    Every statement is for ALL histories of register / register-fallback /
    unregister and ALL called paths; each also says that the model neither
    faults (array index out of range) nor runs out of fuel. *)
-From DV Require Import Lib.Base ObjTree.ObjTree Spec.ObjtreeSpec Proofs.ObjtreeOrder Proofs.ObjtreeProofs Proofs.ObjtreeOracle.
+From DV Require Import Lib.Base ObjTree.ObjTree ObjTree.Dispatch Spec.ObjtreeSpec Spec.ObjtreeSpecDispatch
+  Proofs.ObjtreeOrder Proofs.ObjtreeProofs Proofs.ObjtreeOracle Proofs.ObjtreeSim Proofs.ObjtreeDispatch
+  Proofs.ObjtreeDispatchSpec Proofs.ObjtreeMisc.
 From Coq Require Import Sorted.
 
 (* (1) offered first to the exact handler, then to the fallbacks of successively
@@ -132,3 +134,128 @@ Proof. vm_compute. discriminate. Qed.
 
 Example ex_known_object : s_known_object (s_run [Register true [[97%N]] 1%N]) [[97%N]; [98%N]].
 Proof. right. exists [[97%N]], [[98%N]], 1%N. split; reflexivity. Qed.
+
+(* =====================================================================================
+   Deepening: one message through the whole of dbus_connection_dispatch
+   (ObjTree/Dispatch.v: pending call, Peer built-ins, filters, the snapshot of
+   referenced subtrees with re-entrant register/unregister from inside callbacks,
+   default Introspect, automatic error reply, NEED_MEMORY re-dispatch).
+   [dispatch_message] = model of the C code; [s_dispatch_message] = the same
+   procedure over the flat registration map, strict about re-entrancy;
+   [s_dispatch_message_lax] = without the re-check at invocation time. *)
+
+(* (7) for every history, every filter list, every well-formed message and every script of
+   the callbacks (accepting, declining, out of memory once, registering and unregistering
+   while the dispatch runs): the code runs the same callbacks in the same order as the lax
+   flat-map dispatch, ends in a tree that refines the flat map again, never faults, never
+   runs out of fuel, and its reply differs at most by UnknownMethod-for-UnknownObject (F12) *)
+Theorem C20_dispatch_refines : forall ops fs m b oom, well_formed m ->
+  exists t t' s' log r r',
+    run ops = Ok t /\ dispatch_message t fs m b oom = Ok (t', log, r) /\
+    s_dispatch_message_lax (s_run ops) fs m b oom = Ok (s', log, r') /\
+    refines t' s' /\ reply_rel r r'.
+Proof. exact dispatch_after_history. Qed.
+Print Assumptions C20_dispatch_refines.
+
+(* (8) the strict statement, which the faithful model does NOT meet (F12b): *)
+Definition C20_dispatch_strict_full_statement : Prop := forall ops fs m b oom, well_formed m ->
+  exists t t' s' log r r',
+    run ops = Ok t /\ dispatch_message t fs m b oom = Ok (t', log, r) /\
+    s_dispatch_message (s_run ops) fs m b oom = Ok (s', log, r').
+
+(* proved part: it holds whenever no callback registers a NON-fallback handler during the dispatch *)
+Theorem C20_dispatch_strict_partial : forall ops fs m b oom, well_formed m -> fallback_only b ->
+  exists t t' s' log r r',
+    run ops = Ok t /\ dispatch_message t fs m b oom = Ok (t', log, r) /\
+    s_dispatch_message (s_run ops) fs m b oom = Ok (s', log, r') /\ refines t' s' /\ reply_rel r r'.
+Proof. exact dispatch_strict_partial. Qed.
+Print Assumptions C20_dispatch_strict_partial.
+
+(* witness: fallback 2 at /a, handler 1 at /a/b; during a call to /a/b handler 1 unregisters /a and
+   registers the NON-fallback handler 5 there; the code then calls 5 for the message to /a/b.
+   Replayed on the real connection: corpus line "c f:/a:2 r:/a/b:1 d:/a/b:-:-:cox:1=u~/a+r~/a~5" *)
+Theorem C20_dispatch_strict_refuted : ~ C20_dispatch_strict_full_statement.
+Proof. exact strict_refuted. Qed.
+Print Assumptions C20_dispatch_strict_refuted.
+
+(* (9) callbacks that leave the registrations alone, no allocation failure, a message with a PATH that
+   is neither a reply to a pending call nor on the Peer interface (any type): the callbacks run are
+   the filters in the order they were added, then the exact handler, then the fallbacks of shorter and
+   shorter ancestors, cut after the first that takes the message; the tree is unchanged; the reply is:
+   none needed if somebody took it, else the default Introspect child list (= s_children, cf.
+   C20_children) for an Introspect call, else for a method call UnknownMethod / UnknownObject (the latter
+   only up to F12), else nothing *)
+Theorem C20_dispatch_quiet : forall ops fs m b p,
+  quiet b -> m_reply_pending m = false -> peer_filter m = None -> m_path m = Some p ->
+  exists t r,
+    run ops = Ok t /\
+    dispatch_message t fs m b [] = Ok (t, take_until (accepts b) (fs ++ s_offered (s_run ops) p), r) /\
+    reply_rel r (quiet_reply b (s_run ops) fs m p).
+Proof. exact dispatch_quiet. Qed.
+Print Assumptions C20_dispatch_quiet.
+
+(* the error clause as a statement about dbus_connection_dispatch: refuted (F12), the proved part is
+   the reply_rel of C20_dispatch_quiet *)
+Definition C20_conn_error_full_statement : Prop := forall ops fs m b p,
+  quiet b -> m_reply_pending m = false -> peer_filter m = None -> m_path m = Some p ->
+  exists t log, run ops = Ok t /\ dispatch_message t fs m b [] = Ok (t, log, quiet_reply b (s_run ops) fs m p).
+
+Theorem C20_conn_error_refuted : ~ C20_conn_error_full_statement.
+Proof. exact conn_error_refuted. Qed.
+Print Assumptions C20_conn_error_refuted.
+
+(* (10) a message that answers a pending call goes to that call and to nobody else; a message on the
+   Peer interface is answered by the library itself and reaches neither filters nor handlers *)
+Theorem C20_pending_first : forall t fs m b oom,
+  m_reply_pending m = true -> dispatch_message t fs m b oom = Ok (t, [], RepPendingCompleted).
+Proof. exact dispatch_pending. Qed.
+Print Assumptions C20_pending_first.
+
+Theorem C20_peer_builtin : forall t fs m b oom,
+  m_reply_pending m = false -> m_iface m = IfPeer ->
+  exists r, dispatch_message t fs m b oom = Ok (t, [], r) /\
+    r = (if is_method_call m IfPeer MemPing then RepPeerPing
+         else if is_method_call m IfPeer MemGetMachineId then RepPeerMachineId else RepUnknownMethod).
+Proof. exact dispatch_peer. Qed.
+Print Assumptions C20_peer_builtin.
+
+(* (11) dbus_connection_get_object_path_data: the user data registered at exactly that path *)
+Theorem C20_get_user_data : forall ops p,
+  exists t, run ops = Ok t /\
+    get_user_data t p = Ok (match s_lookup (s_run ops) p with Some (h, _) => Some h | None => None end).
+Proof. exact get_user_data_history. Qed.
+Print Assumptions C20_get_user_data.
+
+(* (12) when the connection dies the unregister callbacks that run are those of the registered paths *)
+Theorem C20_free_all_members : forall ops,
+  exists t, run ops = Ok t /\ forall h, In h (free_all t) <-> exists p fb, s_lookup (s_run ops) p = Some (h, fb).
+Proof. exact free_all_history. Qed.
+Print Assumptions C20_free_all_members.
+
+(* non-vacuity / behaviour samples of the dispatch model *)
+Example ex_requeue :   (* filter 50 and handler 1 each run out of memory once: the message is dispatched three times *)
+  exists t, run swap_history = Ok t /\
+    dispatch_message t [50%N] (plain_msg [la; lb]) (Behaviour (fun _ => false) (fun _ => [])) [50%N; 1%N]
+    = Ok (t, [50; 50; 1; 50; 1; 2]%N, RepUnknownMethod).
+Proof. eexists; split; vm_compute; reflexivity. Qed.
+
+Example ex_unregistered_during_dispatch :   (* handler 1 unregisters the fallback that would have come next *)
+  exists t t', run swap_history = Ok t /\
+    dispatch_message t [] (plain_msg [la; lb])
+      (Behaviour (fun _ => false) (fun h => if N.eqb h 1 then [Unregister [la]] else [])) [] = Ok (t', [1%N], RepUnknownMethod).
+Proof. eexists; eexists; split; vm_compute; reflexivity. Qed.
+
+Example ex_introspect_after_actions :   (* the child list is taken after the handlers have run *)
+  exists t t', run swap_history = Ok t /\
+    dispatch_message t [] (Msg MethodCall IfIntrospectable MemIntrospect (Some [la]) false)
+      (Behaviour (fun _ => false) (fun h => if N.eqb h 2 then [Register false [la; [99%N]] 7%N] else [])) []
+    = Ok (t', [2%N], RepIntrospect [lb; [99%N]]).
+Proof. eexists; eexists; split; vm_compute; reflexivity. Qed.
+
+Example ex_peer_signal :   (* even a SIGNAL on the Peer interface is bounced with an UnknownMethod error *)
+  dispatch_message tree_new [50%N] (Msg Signal IfPeer MemOther (Some [la]) false) (Behaviour (fun _ => true) (fun _ => [])) []
+  = Ok (tree_new, [], RepUnknownMethod).
+Proof. vm_compute. reflexivity. Qed.
+
+Example ex_fallback_only : fallback_only (Behaviour (fun _ => false) (fun _ => [Unregister [la]; Register true [la] 9%N])).
+Proof. intros h o [<-|[<-|[]]]; reflexivity. Qed.
